@@ -12,31 +12,31 @@ use fake::*;
 
 pub const CHIPS: [&str; 6] = ["sx1261", "sx1262", "stm32wl", "sx1272", "sx1276", "lr1110"];
 
-pub fn sx126x<C: lora_phy::sx126x::Sx126xVariant>(bus: &std::rc::Rc<std::cell::RefCell<Bus>>, chip: C) -> lora_phy::sx126x::Sx126x<FakeSpi, FakeIv, C> {
+pub fn sx126x<C: lora_phy::sx126x::Sx126xVariant>(bus: &std::rc::Rc<std::cell::RefCell<Bus>>, chip: C, rx_boost: bool) -> lora_phy::sx126x::Sx126x<FakeSpi, FakeIv, C> {
     lora_phy::sx126x::Sx126x::new(
         FakeSpi(bus.clone()),
         FakeIv,
-        lora_phy::sx126x::Config { chip, tcxo_ctrl: None, use_dcdc: false, rx_boost: false },
+        lora_phy::sx126x::Config { chip, tcxo_ctrl: None, use_dcdc: false, rx_boost },
     )
 }
 
-pub fn sx1276(bus: &std::rc::Rc<std::cell::RefCell<Bus>>, tx_boost: bool) -> lora_phy::sx127x::Sx127x<FakeSpi, FakeIv, lora_phy::sx127x::Sx1276> {
+pub fn sx1276(bus: &std::rc::Rc<std::cell::RefCell<Bus>>, tx_boost: bool, rx_boost: bool) -> lora_phy::sx127x::Sx127x<FakeSpi, FakeIv, lora_phy::sx127x::Sx1276> {
     lora_phy::sx127x::Sx127x::new(
         FakeSpi(bus.clone()),
         FakeIv,
-        lora_phy::sx127x::Config { chip: lora_phy::sx127x::Sx1276, tcxo_used: false, tx_boost, rx_boost: false },
+        lora_phy::sx127x::Config { chip: lora_phy::sx127x::Sx1276, tcxo_used: false, tx_boost, rx_boost },
     )
 }
 
-pub fn sx1272(bus: &std::rc::Rc<std::cell::RefCell<Bus>>, tx_boost: bool) -> lora_phy::sx127x::Sx127x<FakeSpi, FakeIv, lora_phy::sx127x::Sx1272> {
+pub fn sx1272(bus: &std::rc::Rc<std::cell::RefCell<Bus>>, tx_boost: bool, rx_boost: bool) -> lora_phy::sx127x::Sx127x<FakeSpi, FakeIv, lora_phy::sx127x::Sx1272> {
     lora_phy::sx127x::Sx127x::new(
         FakeSpi(bus.clone()),
         FakeIv,
-        lora_phy::sx127x::Config { chip: lora_phy::sx127x::Sx1272, tcxo_used: false, tx_boost, rx_boost: false },
+        lora_phy::sx127x::Config { chip: lora_phy::sx127x::Sx1272, tcxo_used: false, tx_boost, rx_boost },
     )
 }
 
-pub fn lr1110(bus: &std::rc::Rc<std::cell::RefCell<Bus>>) -> lora_phy::lr1110::Lr1110<FakeSpi, FakeIv> {
+pub fn lr1110(bus: &std::rc::Rc<std::cell::RefCell<Bus>>, rx_boost: bool) -> lora_phy::lr1110::Lr1110<FakeSpi, FakeIv> {
     lora_phy::lr1110::Lr1110::new(
         FakeSpi(bus.clone()),
         FakeIv,
@@ -45,7 +45,7 @@ pub fn lr1110(bus: &std::rc::Rc<std::cell::RefCell<Bus>>) -> lora_phy::lr1110::L
             dio_as_rf_switch: None,
             tcxo_ctrl: None,
             use_dcdc: false,
-            rx_boost: false,
+            rx_boost,
         },
     )
 }
@@ -69,6 +69,12 @@ fn drive<RK: RadioKind>(rk: &mut RK, sf: SpreadingFactor, bw: Bandwidth, cr: Cod
         if let Some(pkt) = pkt {
             block_on(rk.set_packet_params(&pkt)).map_err(|_| ())?;
         }
+        // … and the reception is started (pp bit 64): whatever the start of a reception writes
+        // (LNA boost, sequencer, IRQ setup) must leave the flag as it was programmed
+        if pp & 64 != 0 {
+            let mode = if pp & 128 != 0 { lora_phy::RxMode::Continuous } else { lora_phy::RxMode::Single(40) };
+            block_on(rk.do_rx(mode)).map_err(|_| ())?;
+        }
     }
     Ok(f)
 }
@@ -84,13 +90,15 @@ fn ldro_case(chip: &str, sf: SpreadingFactor, bw: Bandwidth, cr: CodingRate, rf:
         };
         let _ = sel;
         let bus = Bus::new(proto, prior);
+        // pp bit 32: a board with the boosted LNA option
+        let boost = pp.map(|p| p & 32 != 0).unwrap_or(false);
         let res = match chip.as_str() {
-            "sx1261" => drive(&mut sx126x(&bus, lora_phy::sx126x::Sx1261), sf, bw, cr, rf, pp),
-            "sx1262" => drive(&mut sx126x(&bus, lora_phy::sx126x::Sx1262), sf, bw, cr, rf, pp),
-            "stm32wl" => drive(&mut sx126x(&bus, lora_phy::sx126x::Stm32wl { use_high_power_pa: true }), sf, bw, cr, rf, pp),
-            "sx1272" => drive(&mut sx1272(&bus, false), sf, bw, cr, rf, pp),
-            "sx1276" => drive(&mut sx1276(&bus, false), sf, bw, cr, rf, pp),
-            _ => drive(&mut lr1110(&bus), sf, bw, cr, rf, pp),
+            "sx1261" => drive(&mut sx126x(&bus, lora_phy::sx126x::Sx1261, boost), sf, bw, cr, rf, pp),
+            "sx1262" => drive(&mut sx126x(&bus, lora_phy::sx126x::Sx1262, boost), sf, bw, cr, rf, pp),
+            "stm32wl" => drive(&mut sx126x(&bus, lora_phy::sx126x::Stm32wl { use_high_power_pa: true }, boost), sf, bw, cr, rf, pp),
+            "sx1272" => drive(&mut sx1272(&bus, boost, boost), sf, bw, cr, rf, pp),
+            "sx1276" => drive(&mut sx1276(&bus, boost, boost), sf, bw, cr, rf, pp),
+            _ => drive(&mut lr1110(&bus, boost), sf, bw, cr, rf, pp),
         };
         let Ok(f) = res else { return "ERR".into() };
         let b = bus.borrow();
@@ -193,6 +201,9 @@ pub fn run(tier: &str, seed: u64, dir: &str) {
                 for prior in [0u8, 0xff] {
                     for pp in 0..8u32 {
                         let pp = pp | if (pp + prior as u32) % 3 == 0 { 8 } else { 0 } | if pp % 5 == 0 { 16 } else { 0 };
+                        // half of the flows also start the reception, on a plain and on a boosted-LNA board,
+                        // single and continuous
+                        let pp = pp | match pp % 4 { 0 => 32 | 64, 1 => 64 | 128, 2 => 32 | 64 | 128, _ => 0 };
                         let op = format!("C15 flow {} {} {} {} {} {} {}", chip, sf.factor(), bw.hz(), 5, 868_100_000, prior, pp);
                         let a = eval(&op);
                         let class = if a == "ERR" { format!("{}-flow-unsupported", chip) } else { format!("{}-flow-ldro{}", chip, &a[..1]) };
